@@ -1047,6 +1047,15 @@ def full_api_replays(rep, seed, n=60):
         b[2] = x[0] / 4
         return algopy.sum(b * x[:3]) + z[0] * 0.25 + b[0] * z[1]
 
+    def p_builtin_sum(x, z):
+        # Python's builtin sum starts from the integer 0 (0 + first term); the term is a view of a buffer entry overwritten later
+        b = algopy.zeros(2, dtype=x)
+        b[0] = x[0] * x[1]
+        s1 = sum([b[0]])
+        s2 = sum(b[k] * z[k] for k in range(2)) + 0
+        b[0] = x[2] * z[0]
+        return s1 * x[3] + b[0] + (0 + s2) + (s1 - 0) * 0.5
+
     def p_keywords(x, z):
         # module-level functions called with their non-default keyword / optional arguments on traced operands (the tracer's
         # triu / tril / diag take no offset k: an explicit TypeError, not generated)
@@ -1057,7 +1066,7 @@ def full_api_replays(rep, seed, n=60):
                 + algopy.sum(algopy.diag(A)) + algopy.sum(algopy.sum(A, axis=1) * z) + algopy.sum(algopy.tile(z, (2, 1)) * A))
 
     progs = [p_pow_traced, p_buffer, p_fft_axis, p_views, p_linalg, p_consts, p_sum_axes, p_special,
-             p_reflected, p_const_left_linalg, p_shape_props, p_zeros_ones_like, p_factorizations, p_det_family, p_rational, p_keywords, p_const_into_buffer]
+             p_reflected, p_const_left_linalg, p_shape_props, p_zeros_ones_like, p_factorizations, p_det_family, p_rational, p_keywords, p_const_into_buffer, p_builtin_sum]
     for it in range(n):
         f = progs[it % len(progs)]
         order = rnd.choice(["xz", "zx"])           # the order in which the independents are LISTED
@@ -1086,6 +1095,7 @@ def full_api_replays(rep, seed, n=60):
             cg.trace_off()
             cg.independentFunctionList = [fx, fz] if order == "xz" else [fz, fx]
             cg.dependentFunctionList = [fy]
+            arglist = None
             for rep_i in range(3):
                 kind = rnd.choice(["arr", "utpm"] if f not in (p_rational, p_const_into_buffer) else ["carr", "iarr", "cutpm", "arr", "utpm"])
                 if kind == "arr":
@@ -1102,7 +1112,10 @@ def full_api_replays(rep, seed, n=60):
                     D = rnd.choice([1, 2, 3]); P = rnd.choice([1, 2])
                     xa = UTPM(numpy.array([[[rnd.uniform(0.2, 1.2) for _ in range(4)] for _ in range(P)] for _ in range(D)]))
                     za = UTPM(numpy.array([[[rnd.uniform(0.5, 1.5) for _ in range(2)] for _ in range(P)] for _ in range(D)]))
-                got = cg.function([xa, za] if order == "xz" else [za, xa])[0]
+                if arglist is None or it % 2:
+                    arglist = [None, None]          # (every other program: one list object reused for all replays, entries replaced)
+                arglist[0], arglist[1] = (xa, za) if order == "xz" else (za, xa)
+                got = cg.function(arglist)[0]
                 ref = direct(xa, za)
                 gd = got.data if isinstance(got, UTPM) else numpy.asarray(got)
                 rd = ref.data if isinstance(ref, UTPM) else numpy.asarray(ref)
